@@ -70,6 +70,30 @@ theorem gen_sem_vec_expr_plain {W : World} {env : VAst.VEnv} {cx : Ctx} {vvty : 
     VAst.typeOf W.sig env a = some t ∧ ∀ ρ σ, VAst.eval W env ρ a σ = VIr.eval W ρ e σ :=
   ⟨((sim_v (ρ := fun _ => .vec []) hag e a t hg ht hl).plain hn).1, fun ρ σ => ((sim_v (ρ := ρ) hag e a t hg ht hl).plain hn).2 σ⟩
 
+/-- **statement-level assignment to vectors and swizzles** (`v = E`, `v.xz = E`, `v += E`, `v.yx *= E`, … for every
+assignment operator the exporter accepts, `E` any expression of the layer, `v` a vector-typed local or global): the emitted
+`lhs op rhs` — the right operand converted to the left operand's type, for compound operators computed in the common
+type and converted back, the named components overwritten in order — yields the same value, scalar store and **vector
+store** as the IR's assignment.  The place is re-read by name and letters on the emitted side (`lvalOfV`). -/
+theorem gen_sem_vec_assign {W : World} {env : VAst.VEnv} {cx : Ctx} {vvty : Var → VTy} (hag : VAgree cx env vvty)
+    (o : IntrinsicOp) (lhs rhs : VExpr) (a : VAExpr) (T : VTy)
+    (hg : genV cx (.op o (.cons lhs (.cons rhs .nil))) = .ok a)
+    (hok : VIr.assignOK W.sig cx.vty vvty lhs rhs = some T) (hl : VIr.litOK rhs = true)
+    (hsem : irOpSem o = .assign ∨ ∃ m, irOpSem o = .compound m) :
+    ∀ ρ σ, VAst.evalTop W env ρ a σ = VIr.evalTop W ρ (.op o (.cons lhs (.cons rhs .nil))) σ := by
+  cases hf : opForm o with
+  | unexpected => simp [genV, hf] at hg
+  | unary u => simp [genV, hf] at hg
+  | binary b =>
+    cases hgl : genV cx lhs with
+    | error e => simp [genV, hf, hgl] at hg
+    | ok lhs' =>
+      cases hgr : genV cx rhs with
+      | error e => simp [genV, hf, hgl, hgr] at hg
+      | ok rhs' =>
+        simp [genV, hf, hgl, hgr] at hg; subst hg
+        exact sim_vassign hag hf hgl hgr hok hl hsem
+
 /-- a cast chain is **not** collapsible: converting a float vector to a scalar first and widening it again replicates
 the first component, converting the vector directly keeps the components.  For every interpretation of the primitives,
 every dimension `n ≥ 2` and every vector whose first two components differ. -/
@@ -153,6 +177,11 @@ example : VIr.typeOf W0.sig cx0.vty (fun _ => .vec .float 3) vEx = some (.vec .f
 example : VIr.litOK vEx = true := by decide
 example : ∃ a, genV cx0 vEx = .ok a := ⟨_, rfl⟩
 example : VAgree cx0 venv0 (fun _ => .vec .float 3) := vagree0
+/-- `l0.zx += (float2)(float)l0` (a swizzle write with a cast chain on the right): the hypotheses of `gen_sem_vec_assign` hold -/
+example : VIr.assignOK W0.sig cx0.vty (fun _ => .vec .float 3) (.swz (.vvar 0) [.Z, .X])
+    (.cast (.vec .float 2) (.cast (.sc .float) (.vvar 0))) = some (.vec .float 2) := by decide
+example : VIr.evalTop W0 ρ123 (.op .SumAssignment (.cons (.swz (.vvar 0) [.Z, .X])
+    (.cons (.cast (.vec .float 2) (.cast (.sc .float) (.vvar 0))) .nil))) (fun _ => .void) ≠ none := by decide
 example (a : VAExpr) (h : genV cx0 vEx = .ok a) (ρ : VStore) (σ : Store) :
     VAst.eval W0 venv0 ρ a σ = VIr.eval W0 ρ vEx σ :=
   (gen_sem_vec_expr_plain vagree0 vEx a (.vec .float 3) h (by decide) (by decide) (by decide)).2 ρ σ
